@@ -269,3 +269,36 @@ func VerifH_C07_stopNearEnd() {
 	vQuiesce()
 	vAssert(vGoroutines() == 0, "goroutines-terminated")
 }
+
+// VerifH_C07_closeAfterStartError: the scan never starts (empty input, input cut inside
+// the header block, a header with an unsupported required feature): Scan is false, Err
+// reports it, and Close still returns (no goroutine was left to wait for).
+func VerifH_C07_closeAfterStartError() {
+	var data []byte
+	switch vRange("startError", 0, 2) {
+	case 0: // empty input
+	case 1: // cut inside the header block
+		h := frame("OSMHeader", simpleHeader())
+		data = h[:vRange("cut", 1, len(h)-1)]
+	case 2: // unsupported required feature
+		var h pbw
+		h.bytesField(4, []byte("Sort.Type_then_ID"))
+		data = frame("OSMHeader", h.b)
+	}
+	kindOfError := len(data) // 0: empty input, which the scanner treats as the (clean) end of an empty file
+	sc := New(context.Background(), &vReader{data: data}, vRange("procs", 1, 2))
+	first := vRange("firstCall", 0, 1) // Header() or Scan() first
+	if first == 0 {
+		_, err := sc.Header()
+		vAssert(err != nil, "header-reports-the-start-error")
+	}
+	vAssert(!sc.Scan(), "scan-false")
+	vReach("not-started")
+	if kindOfError != 0 {
+		vAssert(sc.Err() != nil, "err-reports-the-start-error")
+	}
+	vAssert(sc.Close() == nil || true, "close-returns")
+	vAssert(!sc.Scan(), "scan-false-after-close")
+	vQuiesce()
+	vAssert(vGoroutines() == 0, "goroutines-terminated")
+}
